@@ -170,6 +170,34 @@ def run(check):
                 prog = Program([gen.plugin_step("C", "lit", extra_input={"a": Expr(node)})], {"observed": {"c": Expr(Ref("C", "outputs", "success"))}}, isch)
             gs.append({"program": prog, "scripts": gen.make_scripts(prog.steps, {}), "input": idoc, "shape": "input%s/%s" % ("." + f if f else "", consumer), "outcome": {},
                        "pair": ("workflow", "input", "document"), "consumer": consumer, "field": f})
+    # results of built-in functions: the declared result type of the function becomes the type of the output / is checked
+    # against the consuming field; the value the function really returns must be a value of that type
+    from ..model import RawExpr
+    fsch = InputSchema({"x": {"type": "float"}, "i": {"type": "integer"}, "s": {"type": "string"}, "b": {"type": "bool"}, "p": {"type": "integer"}})
+    FN = [("floatToString", "floatToString($.input.x)", ["x"], "string"), ("floatToFormattedString-f", 'floatToFormattedString($.input.x, "f", $.input.p)', ["x", "p"], "string"),
+          ("floatToFormattedString-e", 'floatToFormattedString($.input.x, "e", $.input.p)', ["x", "p"], "string"), ("floatToFormattedString-g", 'floatToFormattedString($.input.x, "g", $.input.p)', ["x", "p"], "string"),
+          ("floatToFormattedString-b", 'floatToFormattedString($.input.x, "b", $.input.p)', ["x", "p"], "string"), ("floatToFormattedString-x", 'floatToFormattedString($.input.x, "x", $.input.p)', ["x", "p"], "string"),
+          ("intToString", "intToString($.input.i)", ["i"], "string"), ("intToFloat", "intToFloat($.input.i)", ["i"], "float"), ("floatToInt", "floatToInt($.input.x)", ["x"], "int"),
+          ("boolToString", "boolToString($.input.b)", ["b"], "string"), ("toUpper", "toUpper($.input.s)", ["s"], "string"), ("toLower", "toLower($.input.s)", ["s"], "string"),
+          ("splitString", 'splitString($.input.s, ",")', ["s"], "list"), ("ceil", "ceil($.input.x)", ["x"], "float"), ("floor", "floor($.input.x)", ["x"], "float"),
+          ("round", "round($.input.x)", ["x"], "float"), ("abs", "abs($.input.x)", ["x"], "float"), ("stringToFloat", "stringToFloat(floatToString($.input.x))", ["x"], "float"),
+          ("stringToInt", "stringToInt(intToString($.input.i))", ["i"], "int")]
+    XS = [0.0, 1.5, -2.25, 1e21, -1e21, 2.5e21, 9.999999999999999e20, 1.7976931348623157e308, 5e-324, 1e-7, 123456789.125, 9007199254740993.0, -0.0]
+    IS = [0, -5, 7, 4611686018427387904, -9223372036854775807]
+    SS = ["a,b", "", "12", "MiXed,,x", ","]
+    fn_docs = []
+    for k in range(max(len(XS), len(IS), len(SS))):
+        fn_docs.append({"x": XS[k % len(XS)], "i": IS[k % len(IS)], "s": SS[k % len(SS)], "b": k % 2 == 0, "p": [-1, 0, 3, 17, 400][k % 5]})
+    for (fname, text, deps, rtype) in FN:
+        for di, doc in enumerate(fn_docs):
+            for consumer in ("wf-output", "typed-input"):
+                node = RawExpr(text, [In(d) for d in deps])
+                if consumer == "wf-output":
+                    prog = Program([gen.plugin_step("C", "lit")], {"observed": {"v": Expr(node)}}, fsch)
+                else:
+                    prog = Program([gen.plugin_step("C", "lit", extra_input={TYPED_FIELD[rtype]: Expr(node)})], {"observed": {"c": Expr(Ref("C", "outputs", "success"))}}, fsch)
+                gs.append({"program": prog, "scripts": gen.make_scripts(prog.steps, {}), "input": doc, "shape": "function-result:%s#%d/%s" % (fname, di, consumer), "outcome": {},
+                           "pair": None, "consumer": consumer, "field": None, "fn": fname})
     n_extra = check.pick(150, 2500)
     extra = []
     for i in range(n_extra):
@@ -219,6 +247,12 @@ def run(check):
                 if why:
                     vs.append(mon.V("C08", "schema@plugin-input", "plugin %s received an input that violates its schema: %s" % (e["src"], why)))
         run = res["runs"][0]
+        if g.get("fn"):
+            fs = check.extra.setdefault("function_results", {"produced": 0, "evaluation_errors": 0, "functions": {}})
+            fs["produced" if run.get("out_id") else "evaluation_errors"] += 1
+            fs["functions"][g["fn"]] = fs["functions"].get(g["fn"], 0) + 1
+            if run.get("out_id"):
+                check.nontrivial("fn:%s/%s" % (g["fn"], g["consumer"]))
         if cell:
             produced = run.get("out_id") == "observed"
             table[cell] = "ok" if (produced and not vs) else ("violation" if vs else "not-produced:%s" % (run.get("err") or run.get("out_id"))[:80])
